@@ -107,6 +107,9 @@ impl RSNarrow {
     /// Returns the number of bits set to 1 in the bitvector.
     #[inline(always)]
     pub fn n_ones(&self) -> usize {
+        if self.bv.is_empty() {
+            return 0;
+        }
         self.rank1(self.bv.len() - 1).unwrap() + self.bv.get(self.bv.len() - 1).unwrap() as usize
     }
 
